@@ -77,7 +77,11 @@ func writeEntry(t *Table, entry kv.Entry) {
 	}
 	// Set ending entry values
 	t.endKey = entry.Key()
-	t.endSeqNum = entry.SeqNum()
+
+	// Entries arrive in key order, not in sequence order: track the range of
+	// sequence numbers, the level list's LatestSeqNum depends on the maximum.
+	t.startSeqNum = min(t.startSeqNum, entry.SeqNum())
+	t.endSeqNum = max(t.endSeqNum, entry.SeqNum())
 
 	// Add to metadata
 	t.searchIndex.IndexOffset(t.size)
